@@ -7,7 +7,7 @@ Open Scope list_scope.
 Definition exported := (list jspec * list expr * list (expr * string))%type.
 
 Record jcase := mkJCase {
-  c_left : frame; c_lctes : list cmeta; c_steps : list jstep; c_fin : fin;
+  c_left : frame; c_lbase : nat; c_lctes : list cmeta; c_steps : list jstep; c_fin : fin;
   c_impl : option (list string * list row);     (* df.columns and collect(); None = one of them raised *)
   c_exported : option exported }.
 
@@ -34,7 +34,7 @@ Definition jspec_eqb (a b : jspec) : bool := jkind_eqb (fst a) (fst b) && oexpr_
 Definition item_eqb (a b : expr * string) : bool := expr_eqb (fst a) (fst b) && String.eqb (snd a) (snd b).
 
 Definition model_state (c : howcfg) (k : jcase) : option st :=
-  match m_chain c (init_st (c_left k) (c_lctes k)) (c_steps k) with
+  match m_chain c (init_st (c_left k) (c_lbase k) (c_lctes k)) (c_steps k) with
   | Some s => m_fin s (c_fin k)
   | None => None
   end.
@@ -49,15 +49,15 @@ Definition t2_ok (c : howcfg) (k : jcase) : bool :=
   end.
 
 Definition in_domain (c : howcfg) (k : jcase) : bool :=
-  nodupb (cols (c_left k)) && chain_dom c (init_st (c_left k) (c_lctes k)) (c_steps k)
+  nodupb (cols (c_left k)) && chain_dom c (init_st (c_left k) (c_lbase k) (c_lctes k)) (c_steps k)
   && match c_fin k with FNone => true | _ => false end.
 
 Definition b2s (b : bool) : string := if b then "1" else "0".
 
 (** impl=model | impl=spec | model=spec | in the theorem's domain | impl raised | model rejects | spec rejects | T2 *)
 Definition check (c : howcfg) (k : jcase) : string :=
-  let m := m_run c (c_left k) (c_lctes k) (c_steps k) (c_fin k) in
-  let s := sp_run (c_left k) (c_steps k) (c_fin k) in
+  let m := m_run c (c_left k) (c_lbase k) (c_lctes k) (c_steps k) (c_fin k) in
+  let s := sp_run (c_left k) (c_lbase k) (c_steps k) (c_fin k) in
   b2s (res_eqb m (c_impl k)) ++ b2s (res_eqb s (c_impl k)) ++ b2s (fr_eqb m s) ++ b2s (in_domain c k)
   ++ b2s (match c_impl k with None => true | _ => false end)
   ++ b2s (match m with None => true | _ => false end) ++ b2s (match s with None => true | _ => false end)
